@@ -190,6 +190,7 @@ fn run_n<const N: usize>(case: &Case) -> Outcome {
     let mut labels = vec![match case.pool.mode {
         Mode::Window => "mode_window",
         Mode::Prefix => "mode_prefix",
+        Mode::Gaps => "mode_gaps",
     }];
     if case.pre.iter().any(|p| p.is_some()) {
         labels.push("pre_merged");
